@@ -159,14 +159,15 @@ class LevelLimit(TreeLevelCandidatesFilter):
         for level in range(len(tree.levels[:-1])):
             level_demes = [deme for deme in candidates.keys() if deme.level == level]
             level_candidates = [candidate for deme in level_demes for candidate in candidates[deme].individuals]
-            level_candidates.sort(key=lambda ind: ind.fitness)
+            # Best first in the problem's own direction (raw fitness order keeps the worst when maximizing).
+            level_candidates.sort(reverse=True)
             currently_active_level_below = len([deme for deme in tree.levels[level + 1] if deme.is_active])
             if currently_active_level_below + len(level_candidates) > self.limit:
                 cutoff = self.limit - currently_active_level_below
-                fitness_cutoff = level_candidates[cutoff].fitness
+                cutoff_individual = level_candidates[cutoff]
                 for deme in level_demes:
                     candidates[deme].individuals = [
-                        ind for ind in candidates[deme].individuals if ind.fitness < fitness_cutoff  # type: ignore
+                        ind for ind in candidates[deme].individuals if ind > cutoff_individual  # type: ignore
                     ]
         return candidates
 
